@@ -394,4 +394,5 @@ std::string in_child(F &&f) {
 
 } // namespace
 
-#include "c20_part2.ipp"
+#include "c20_ocp.ipp"
+#include "c20_main.ipp"
